@@ -3,7 +3,7 @@
     with the model lemmas of Proofs/Strategy.v. *)
 From Coq Require Import Lia Sorting.Sorted.
 From Hts Require Import Base.Prim Base.Chunks Generated Model.Strategy Model.StrategySpec Model.StrategyRun
-  Proofs.Strategy Proofs.StrategyLoop.
+  Proofs.Strategy Proofs.StrategyLoop Proofs.StrategyRuns.
 Open Scope Z_scope.
 
 Lemma run_fuel_model s fuel l :
@@ -111,3 +111,16 @@ Qed.
 Lemma strategy_valid_gen s l out :
   valid_chunks l -> run_strategy s l = Ok out -> valid_chunks out.
 Proof. intros Hv H. apply run_inv in H. subst. apply model_valid; assumption. Qed.
+
+Lemma model_runs s l : valid_chunks l -> merged_runs (joins s) l (model_of s l).
+Proof.
+  destruct s; simpl; intros Hv.
+  - apply identity_runs_gen.
+  - apply adjacent_runs_gen; assumption.
+  - apply squash_runs_gen; assumption.
+  - apply compressor_runs_gen; assumption.
+Qed.
+
+Lemma strategy_runs_gen s l out :
+  valid_chunks l -> run_strategy s l = Ok out -> merged_runs (joins s) l out.
+Proof. intros Hv H. apply run_inv in H. subst. apply model_runs; assumption. Qed.
